@@ -345,3 +345,34 @@ func runDidStream(c *ctx) error {
 	}
 	return nil
 }
+
+// rebuildStdKey turns (multicodec code, key material) into a libp2p public key using the standard library
+// only (P-curves: compressed point; RSA: PKCS#1).
+func rebuildStdKey(code uint64, m []byte) crypto.PubKey {
+	switch code {
+	case 0x1200, 0x1201, 0x1202:
+		curve := map[uint64]elliptic.Curve{0x1200: elliptic.P256(), 0x1201: elliptic.P384(), 0x1202: elliptic.P521()}[code]
+		x, y := elliptic.UnmarshalCompressed(curve, m)
+		if x == nil {
+			return nil
+		}
+		pkix, err := x509.MarshalPKIXPublicKey(&ecdsa.PublicKey{Curve: curve, X: x, Y: y})
+		if err != nil {
+			return nil
+		}
+		k, _ := crypto.UnmarshalECDSAPublicKey(pkix)
+		return k
+	case 0x1205:
+		rk, err := x509.ParsePKCS1PublicKey(m)
+		if err != nil {
+			return nil
+		}
+		pkix, err := x509.MarshalPKIXPublicKey(rk)
+		if err != nil {
+			return nil
+		}
+		k, _ := crypto.UnmarshalRsaPublicKey(pkix)
+		return k
+	}
+	return nil
+}
